@@ -35,6 +35,14 @@ type vTrace struct {
 	mu   sync.Mutex
 	evts []vEvt
 	idf  func(*Message) string
+	born time.Time
+}
+
+func (t *vTrace) bornOr() time.Time {
+	if t.born.IsZero() {
+		return time.Now()
+	}
+	return t.born
 }
 
 func (t *vTrace) add(e vEvt) {
@@ -141,7 +149,7 @@ func (n *vNet) NewNode(name, router string, opts ...Option) (*vNode, error) {
 func (n *vNet) NewNodeIP(name, ip, router string, opts ...Option) (*vNode, error) {
 	h := n.NewHost(name, ip)
 	ctx, cancel := context.WithCancel(context.Background())
-	nd := &vNode{net: n, h: h, tr: &vTrace{}, ctx: ctx, cancel: cancel, name: name}
+	nd := &vNode{net: n, h: h, tr: &vTrace{born: time.Now()}, ctx: ctx, cancel: cancel, name: name}
 	all := append([]Option{WithRawTracer(nd.tr)}, opts...)
 	if os.Getenv("VERIF_LIBLOG") != "" {
 		lg := slog.New(&vLogHandler{c: n.c, name: name})
